@@ -45,6 +45,11 @@ def gen(tier, rng):
         yield "sd %s c1,w60,r,%s,w100,d,x999,l,p,a" % (kind, cs), {"scenario": "dropped-with-%d-open-connections" % n}
     # a TCP server bound to one specific address that is not 127.0.0.1 (127.0.0.2 is loopback too on Linux)
     yield "sd 2 d,x1,l", {"scenario": "bound-to-127.0.0.2"}
+    # (the listener must go away by itself, not only once somebody connects)
+    yield "sd 2 d,l,x1", {"scenario": "bound-to-127.0.0.2"}
+    yield "sd 2 c1,r,d,l,x9,a", {"scenario": "bound-to-127.0.0.2"}
+    yield "sd t d,l,x1", {"scenario": "listener-closed-before-any-attempt"}
+    yield "sd u d,l,p,x1", {"scenario": "listener-closed-before-any-attempt"}
     yield "sd 2 c1,r,d,w50,x9,l,a", {"scenario": "bound-to-127.0.0.2"}
     # a UNIX-socket server whose accept loop has already ended (listener handed in non-blocking: accept fails at once):
     # dropping the server must still remove the socket path
